@@ -63,6 +63,10 @@ func wcChild(a []string) string {
 	scen, n, listen, peer := a[0], int(atoi64(a[1])), a[2] == "t", a[3]
 	f := newFakeWS(0)
 	f.echoClose = peer == "echo"
+	if peer == "silentslow" {
+		// the underlying Close fails pending reads at once but takes a while to return
+		f.slowClose = 30 * time.Millisecond
+	}
 	if peer == "writefail" {
 		f.writeErr = true
 	}
@@ -162,7 +166,14 @@ func wcChild(a []string) string {
 				go func() {
 					defer wg.Done()
 					for j := 0; j < 20; j++ {
-						_, _ = conn.Write([]byte{byte(j)})
+						switch (i + j) % 5 {
+						case 3: // control frames through WriteMessage (what a ping handler answering with a pong does)
+							_ = conn.WriteMessage(websocket.PongMessage, []byte{byte(j)})
+						case 4:
+							_ = conn.WriteMessage(websocket.PingMessage, []byte{byte(j)})
+						default:
+							_, _ = conn.Write([]byte{byte(j)})
+						}
 					}
 				}()
 			}
@@ -413,7 +424,7 @@ func init() {
 		return "crash"
 	}
 	suites["wsconn"] = func(o *Out, r *Rng, n int, tier string) {
-		peers := []string{"echo", "silent", "first1000", "first1001", "sever", "writefail"}
+		peers := []string{"echo", "silent", "first1000", "first1001", "sever", "writefail", "silentslow"}
 		for i := 0; i < n; i++ {
 			switch r.Intn(9) {
 			case 5:
